@@ -152,7 +152,8 @@ def run_chunking(stream, sizes, maxp, rb, ro):
         n_all = len(got_all)
         n_typed = {t: len(l) for t, l in typed.items()}
         try:
-            res = dec.on_data(chunk)
+            # a one-byte chunk is passed as an int every other time (the documented "single byte" form of on_data)
+            res = dec.on_data(chunk[0] if (len(chunk) == 1 and i % 2 == 1) else chunk)
         except BaseException as e:
             R.append('%d:!EXC:%s;' % (i, type(e).__name__))
             break
